@@ -150,6 +150,12 @@ def make_docx(path, redlined=True):
         p2._p.append(parse_xml('<w:ins %s w:id="2" w:author="Bob" w:date="2024-01-01T00:00:00Z"><w:r><w:t>sixty</w:t></w:r></w:ins>' % W))
         p2.add_run(' days.')
     d.save(path)
+    if redlined:      # an existing comment (by another author) that review rounds can REPLY to
+        from adeu.redline.engine import RedlineEngine
+        from adeu.models import DocumentEdit
+        e = RedlineEngine(io.BytesIO(open(path, 'rb').read()), author='Carol')
+        e.apply_edits([DocumentEdit(target_text='a tail', new_text='a long tail', comment='first comment')])
+        open(path, 'wb').write(e.save_to_stream().getvalue())
 
 def build_template(tdir):
     os.makedirs(tdir)
@@ -175,7 +181,7 @@ def build_template(tdir):
 INPUTS = ['doc.docx', 'missing.docx', 'notdocx.docx', 'truncated.docx', 'badxml.docx']
 EDITS = [{'target_text': 'quick brown', 'new_text': 'slow red', 'comment': 'why'}, {'target_text': 'lazy', 'new_text': ''}]
 EDITS_SKIP = EDITS + [{'target_text': 'ABSENT TEXT', 'new_text': 'y'}]
-ACTIONS = [{'action': 'ACCEPT', 'target_id': 'Chg:1'}, {'action': 'REJECT', 'target_id': 'Chg:2'}, {'action': 'ACCEPT', 'target_id': 'Chg:77'}]
+ACTIONS = [{'action': 'ACCEPT', 'target_id': 'Chg:1'}, {'action': 'REJECT', 'target_id': 'Chg:2'}, {'action': 'ACCEPT', 'target_id': 'Chg:77'}, {'action': 'REPLY', 'target_id': 'Com:1', 'text': 'noted by the reviewer'}]
 
 def base_cases():
     """fault-free cases: (front, name, args, expectation dict)"""
@@ -196,6 +202,9 @@ def base_cases():
     # in-place conventions
     cs.append(('tool', 'apply_structured_edits', {'original_docx_path': D + 'doc_redlined.docx', 'edits': EDITS_SKIP, 'author_name': 'Rev'}, {'out': 'doc_redlined.docx'}))
     cs.append(('tool', 'manage_review_actions', {'original_docx_path': D + 'doc_reviewed.docx', 'actions': ACTIONS, 'author_name': 'Rev'}, {'out': 'doc_reviewed.docx'}))
+    # the in-place convention must not override an explicit output path (product of the two configurations)
+    cs.append(('tool', 'apply_structured_edits', {'original_docx_path': D + 'doc_redlined.docx', 'edits': EDITS, 'author_name': 'Rev', 'output_path': D + 'new_out2.docx'}, {'out': 'new_out2.docx'}))
+    cs.append(('tool', 'manage_review_actions', {'original_docx_path': D + 'doc_reviewed.docx', 'actions': ACTIONS, 'author_name': 'Rev', 'output_path': D + 'new_out3.docx'}, {'out': 'new_out3.docx'}))
     cs.append(('tool', 'apply_structured_edits', {'original_docx_path': D + 'doc.docx', 'edits': EDITS, 'author_name': '  '}, {'out': None, 'err': True}))
     cs.append(('tool', 'manage_review_actions', {'original_docx_path': D + 'doc.docx', 'actions': ACTIONS, 'author_name': ''}, {'out': None, 'err': True}))
     # CLI
@@ -209,6 +218,7 @@ def base_cases():
         cs.append(('cli', 'apply', ['apply', D + inp, D + 'modified.txt', '--author', 'Z'], {'exit0': inp == 'doc.docx', 'out': 'doc_redlined.docx'}))
         cs.append(('cli', 'markup', ['markup', D + inp, D + 'edits.json'], {'exit0': inp == 'doc.docx', 'out': 'doc.md'}))
     cs.append(('cli', 'apply', ['apply', D + 'doc_redlined.docx', D + 'edits.json'], {'exit0': True, 'out': 'doc_redlined.docx'}))
+    cs.append(('cli', 'apply', ['apply', D + 'doc_redlined.docx', D + 'edits.json', '-o', D + 'new_out4.docx'], {'exit0': True, 'out': 'new_out4.docx'}))
     cs.append(('cli', 'apply', ['apply', D + 'doc.docx', D + 'edits_skip.json'], {'exit0': False, 'out': 'doc_redlined.docx', 'skipped': True}))
     cs.append(('cli', 'apply', ['apply', D + 'doc.docx', D + 'edits_bad.json'], {'exit0': False}))
     cs.append(('cli', 'apply', ['apply', D + 'doc.docx', D + 'missing.json'], {'exit0': False}))
